@@ -135,6 +135,95 @@ def structure_and_roundtrip(case, ctx):
 
 
 # ----------------------------------------------------------------------------
+# shape-only init with a caller-chosen `mutable` filter
+# ----------------------------------------------------------------------------
+def spec_tree(v):
+  """{collection: {path: (shape, dtype)}} for arrays, ShapeDtypeStructs and the
+  tuples that sow stores."""
+  out = {}
+  for c in v:
+    leaves = jax.tree_util.tree_flatten_with_path(unfreeze(v[c]))[0]
+    out[c] = {jax.tree_util.keystr(kp): (tuple(l.shape), str(l.dtype))
+              for kp, l in leaves}
+  return out
+
+
+def init_filter_case():
+  return st.tuples(
+      L.case_strategy(allow=('counter', 'sow', 'tanh', 'shared'),
+                      max_depth=3, max_ops=5, styles=('compact',)),
+      st.sampled_from(['default', 'true', 'list', 'list', 'tuple', 'deny',
+                       'deny']),
+      st.lists(st.sampled_from(L.SOW_COLS), max_size=2, unique=True))
+
+
+@clause('shape_only_init_filters', strategy=init_filter_case, quick=250,
+        thorough=12000, quick_shards=4, thorough_shards=16,
+        rule='programs with parameters, counters and sow x the `mutable` '
+        'argument of init (default, True, list/tuple of params + state + a '
+        'subset of the sown collections, DenyList of sown collections): '
+        'eval_shape(init), jit(init) and lazy_init called with the same '
+        '`mutable` return the collections, paths, shapes and dtypes of '
+        'concrete init (lazy_init may instead raise LazyInitError when a sown, '
+        'input-dependent value is part of the result); non-trivial = the '
+        'program sows into a collection the '
+        'filter excludes or a non-default filter includes')
+def shape_only_init_filters(case, ctx):
+  case, form, sown = case
+  case = L.normalize_case(case)
+  mod = L.make_root(case)
+  x = L.make_input(case)
+  key = jax.random.key(case['seed'])
+  base = ['params'] + list(L.STATE_COLS)
+  if form == 'default':
+    kw = {}
+  elif form == 'true':
+    kw = {'mutable': True}
+  elif form == 'list':
+    kw = {'mutable': base + list(sown)}
+  elif form == 'tuple':
+    kw = {'mutable': tuple(base + list(sown))}
+  else:
+    kw = {'mutable': flax.core.DenyList(list(sown) if len(sown) != 1
+                                        else sown[0])}
+  with sut(f'init({kw})'):
+    v = mod.init(key, x, **kw)
+  ref = spec_tree(v)
+  with sut(f'eval_shape(init, {kw})'):
+    av = jax.eval_shape(lambda k, xx: mod.init(k, xx, **kw), key, x)
+  require(spec_tree(av) == ref, lambda: f'eval_shape(init) with {kw} gives '
+          f'{spec_tree(av)}, concrete init gives {ref}')
+  with sut(f'jit(init, {kw})'):
+    jv = jax.jit(lambda k, xx: mod.init(k, xx, **kw))(key, x)
+  require(spec_tree(jv) == ref, lambda: f'jit(init) with {kw} gives '
+          f'{spec_tree(jv)}, concrete init gives {ref}')
+  sows = {o['col'] for o in L.collect(case['prog'], 'sow', case)}
+  present = sows & set(ref)
+  spec = jax.ShapeDtypeStruct(x.shape, x.dtype)
+  if present:
+    # sown values depend on the input values: lazy_init is documented to
+    # reject them (LazyInitError); if it returns, it must agree
+    try:
+      lz = mod.lazy_init(key, spec, **kw)
+    except ferrors.LazyInitError:
+      lz = None
+    except Exception as e:  # noqa
+      raise Violation(f'lazy_init with {kw}: unexpected '
+                      f'{type(e).__name__}: {e}'[:400]) from None
+  else:
+    with sut(f'lazy_init({kw})'):
+      lz = mod.lazy_init(key, spec, **kw)
+  if lz is not None:
+    require(spec_tree(lz) == ref, lambda: f'lazy_init with {kw} gives '
+            f'{spec_tree(lz)}, concrete init with the same arguments gives '
+            f'{ref}')
+  ctx.note(labels=[form, 'sows' if sows else 'nosow',
+                   'sown-present' if present else 'sown-absent'],
+           nontrivial=bool(sows) and (bool(sows - set(ref)) or
+                                      form not in ('default',)))
+
+
+# ----------------------------------------------------------------------------
 @clause('missing_or_misshaped',
         strategy=lambda: st.tuples(c02_case(allow=('counter', 'stat', 'tanh')),
                                    st.sampled_from(['leaf', 'subtree', 'shape',
